@@ -199,6 +199,8 @@ func protoAlphabet() []Letter {
 	al = append(al, setLetter("cas-a", "cas", "a", 0, 0, "cased", false, " 7"))
 	al = append(al, setLetter("set-a-rev7", "set", "a", 0, 7, "rev7", false, ""))
 	al = append(al, setLetter("set-a-c65", "set", "a", 0, 0, c65, false, ""))
+	al = append(al, setLetter("set-a-rev1-c65", "set", "a", 0, 1, c65+"r", false, "")) // explicit revision 1: refused (silently) once a exists; C-allocated value
+	al = append(al, setLetter("set-b-rev1-big", "set", "b", 0, 1, big+"r", false, ""))
 	al = append(al, setLetter("set-b-big", "set", "b", 0, 0, big, false, ""))
 	al = append(al, setLetter("set-a-num", "set", "a", store.FLAG_INCR, 0, "10", false, ""))
 	w("delete-a", "delete a\r\n", func(md *Model, ts uint32) *Reply { return lineReply(md.Delete("a", ts)) })
